@@ -239,6 +239,12 @@ func FrameCheck(root string, s *Step, r *StepResult) []*Violation {
 			}
 			continue
 		}
+		// a run that wrote its output may have created the directories leading to it
+		// (a tool that creates missing parents of -out does not violate the frame;
+		// leaving them behind after a failed or dry run does)
+		if d[0] == '+' && okExit && !iv.Dry && r.Post[p].Type == "dir" && strings.HasPrefix(outRel, p+"/") {
+			continue
+		}
 		if iv.Log && filepath.ToSlash(filepath.Dir(p)) == filepath.ToSlash(filepath.Dir(outRel)) && strings.HasSuffix(p, ".log") {
 			logsSeen++
 			if logsSeen == 1 {
